@@ -322,6 +322,14 @@ fn fs_main(a: &Args) {
 			let mut evs = Vec::new();
 			for (i, o) in s["ops"].as_array().unwrap().iter().enumerate() {
 				let op = parse_fs_op(o);
+				let valid = match &op {
+					FsOp::List(n) => *n <= nss.len(),
+					FsOp::Write(k, _) | FsOp::Read(k) | FsOp::Remove(k, _) => *k >= 1 && *k <= keys.len(),
+				};
+				if !valid {
+					eprintln!("script {} does not fit layout {}", si, lay);
+					std::process::exit(3);
+				}
 				exec_fs_op(&*store, &keys, &nss, &op, false, 1, i + 1, &gseq, &mut evs);
 				nops += 1;
 			}
@@ -798,6 +806,11 @@ fn gen_histories(seed: u64, hid: usize) -> Vec<History> {
 	let _ = catch_unwind(AssertUnwindSafe(|| {
 		let chan = create_announced_chan_between_nodes_with_value(nodes, 0, 1, 1_000_000, 400_000_000);
 		let nact = rng.gen_range(2..6);
+		// A ChannelForceClosed update schedules claims relative to the height it is applied at; a
+		// recovered monitor applies it at the stored monitor's (older) tip and is connected to the
+		// newer blocks afterwards, which leaves different claim bookkeeping than in memory.  So a
+		// history either connects blocks or ends in a force-close, not both.
+		let with_blocks = rng.gen_bool(0.6);
 		send_payment(&nodes[0], &[&nodes[1]], 2_000_000);
 		desc.lock().unwrap().push("pay0>1:2000000".into());
 		let mut held: Vec<(usize, lightning::types::payment::PaymentPreimage, lightning::types::payment::PaymentHash)> = Vec::new();
@@ -831,6 +844,7 @@ fn gen_histories(seed: u64, hid: usize) -> Vec<History> {
 						}
 					}
 				},
+				_ if !with_blocks => {},
 				_ => {
 					let n = rng.gen_range(1..7);
 					connect_blocks(&nodes[0], n);
@@ -839,7 +853,7 @@ fn gen_histories(seed: u64, hid: usize) -> Vec<History> {
 				},
 			}
 		}
-		if rng.gen_bool(0.4) {
+		if !with_blocks {
 			let peer = nodes[1].node.get_our_node_id();
 			let _ = nodes[0].node.force_close_broadcasting_latest_txn(&chan.2, &peer, "verif".to_owned());
 			desc.lock().unwrap().push("force_close0".into());
